@@ -348,6 +348,18 @@ def rule_top_two(ctx):
         # in a helper the new value arrives as a parameter
         reads += sorted({p_['name'] for p_ in cfront.params(h) if 'double' in qtype(p_) and '*' not in qtype(p_)
                          and any(x.get('kind') == 'DeclRefExpr' and x['referencedDecl'].get('name') == p_['name'] for x in walk(st))})
+    pre = []
+    if not reads and h is None:
+        # the new value named by a local (const double radius = pt.r): the declaration is evaluated with the fragment
+        loc = sorted({x['referencedDecl']['name'] for x in walk(st) if x.get('kind') == 'DeclRefExpr' and x['referencedDecl'].get('kind') == 'VarDecl' and 'double' in qtype(x)})
+        for nm_ in loc:
+            for d_ in walk(cfront.body(tu.func('reb_simulation_add'))):
+                if d_.get('kind') == 'VarDecl' and d_.get('name') == nm_ and 'init' in d_:
+                    init_ = [c for c in d_.get('inner', []) if c.get('kind') not in ('FullComment',)]
+                    src_ = strip(init_[-1], casts=True) if init_ else {}
+                    if src_.get('kind') == 'MemberExpr':
+                        reads.append(orders._path(src_))
+                        pre.append((nm_, orders._path(src_)))
     anchor(len(reads) == 1, 'reb_simulation_add: one new value is compared with the two maxima (%s)' % reads)
     v = reads[0]
     n = 0
@@ -358,6 +370,8 @@ def rule_top_two(ctx):
             if env0[top] < env0[second]:
                 continue            # the pair is kept ordered: only such states are reachable
             env = dict(env0)
+            for nm_, src_ in pre:
+                env[nm_] = env[src_]
             try:
                 orders.run(st, env)
             except orders.Unsupported as ex:
